@@ -215,8 +215,10 @@ def reach_rule(db, rep, r, entries, scope_prefixes=None, allow=None, site_allow=
     # producer, anywhere in that file, is covered by the same reason - so extracting a helper, renaming a function or turning a
     # closure into a loop does not invalidate the review, while a new kind of site or a new producer in the file is reported.
     # Sites without a producer (index / bounds / explicit panic) are matched per enclosing function, ignoring closure nesting and
-    # ordinals, and only while the function has no more sites of that kind than were reviewed.
-    class_allow, fn_allow = {}, {}
+    # ordinals, and only while the function has no more sites of that kind than were reviewed; when the function itself is gone
+    # (renamed, split), per source file under the same count guard.
+    class_allow, fn_allow, file_allow = {}, {}, {}
+    file_counts = {}
     for k, why in site_allow.items():
         parts = k.split("|")
         if len(parts) < 2:
@@ -227,6 +229,9 @@ def reach_rule(db, rep, r, entries, scope_prefixes=None, allow=None, site_allow=
                 class_allow.setdefault((f0, parts[1]), why)
         else:
             fn_allow.setdefault((_parent_fn(parts[0]), parts[1]), []).append(why)
+            f0 = _file_of_key(db, parts[0])
+            if f0 is not None:
+                file_allow.setdefault((f0, parts[1]), []).append(why)
     g = graph or call_graph(db)
     missing = [e for e in entries if e not in db.mir]
     rep.anchor(not missing, "entry points %s" % missing)
@@ -247,6 +252,8 @@ def reach_rule(db, rep, r, entries, scope_prefixes=None, allow=None, site_allow=
                 continue
             fk = (_parent_fn(fn), s["key"].split("|")[1])
             site_counts[fk] = site_counts.get(fk, 0) + 1
+            ck_ = (db.mir.file_of(fn), s["key"].split("|")[1])
+            file_counts[ck_] = file_counts.get(ck_, 0) + 1
     for fn in sorted(reach):
         if scope_prefixes and not fn.startswith(tuple(scope_prefixes)) and not any(p in fn for p in scope_prefixes):
             continue
@@ -274,6 +281,10 @@ def reach_rule(db, rep, r, entries, scope_prefixes=None, allow=None, site_allow=
                 elif fk in fn_allow and site_counts.get(fk, 0) <= len(fn_allow[fk]):
                     reason = "reviewed site of %s (%s): %s" % (fk[0].split("::")[-1], stub, fn_allow[fk][0])
                     used_allow.add("fn:%s|%s" % fk)
+                elif ck in file_allow and file_counts.get(ck, 0) <= len(file_allow[ck]):
+                    # the enclosing function was renamed / split: the file still has no more sites of this kind than were reviewed
+                    reason = "reviewed site of this file (%s): %s" % (stub, file_allow[ck][0])
+                    used_allow.add("file:%s|%s" % ck)
             if reason is None and s["kind"] == "unwrap" and s["oterm"] is not None:
                 k = "unwrap@%s" % s["origin"]
                 if k in allow:
